@@ -17,7 +17,7 @@ CONSTANTS MaxSegs, MaxAtoms, Atoms, MCSemis, MCBlocks, Deviations
 
 Words   == {"word", "flag", "lflag", "lflageq", "path", "dots", "eqword", "dashword", "num", "ddash", "dash",
             "colon", "comma", "plus", "at", "glob", "tilde"}
-Quoted  == {"sq", "dq"}
+Quoted  == {"sq", "dq", "sqesc"}
 Subst   == {"env", "envbr", "pyeval", "pylist", "capt", "uncapt"}
 Redirs  == {"rout", "rapp", "rerr", "rerr2", "rall", "rmerge", "rin"}
 AtomKinds == Words \cup Quoted \cup Subst \cup Redirs
